@@ -229,6 +229,9 @@ def eval_constrained(tf, tfl, d):
   y = layer(tf.constant(x)).numpy()
   outs = [[float(v) for v in row] for row in y]
   R = np.array(kern)
+  if not (np.all(np.isfinite(R)) and np.all(np.isfinite(y))):
+    return Case(d, coq=None, pred_fail="constrained layer: non-finite kernel or output after the kernel constraint",
+                nontrivial=True, klass="proj_nonfinite", info={"impl_constrained_kernel": repr(kern)})
   scale = max(1.0, float(np.abs(y).max()))
   eps = 1e-9 * scale
   fail = None
